@@ -52,7 +52,7 @@ notes={
  'C13':"last channel of a key dropped and a same-key arrival pending at one poll: new tracker never recorded (dead Weak kept)",
  'C14':"as C12's seed: second throttle reply in one poll without poll_ready",
  'C15':"in-memory unbounded channel: writer dropped with messages still unread: reader reports end-of-stream early",
- 'C16':"",
+ 'C16':"io::ErrorKind decoder rewritten as a table with an off-by-one bound: a response whose error kind number is exactly 18 panics the client's decoder",
  'C17':"service whose methods are not declared in alphabetical order: RequestName returns another method's name",
  'C18':"a Sampled context without an OpenTelemetry layer: child contexts drop the sampling decision",
  'C19':"before_and_after hook whose before part mutates the context and whose after part reads it",
@@ -74,7 +74,7 @@ notes.update({
  'C13b':"two keys: notifications polled before the listener and removed unconditionally: another key's stale notification erases a live entry",
  'C14b':"client: idle flush skipped when the in-flight map is empty: a just-written Cancel stays unflushed",
  'C15b':"ServerError.detail skipped when empty: not decodable under bincode",
- 'C16b':"",
+ 'C16b':"a per-poll work budget in BaseChannel::poll_next: >= 33 non-request steps in ONE poll with the 32nd a duplicate of an in-flight request (e.g. 33 duplicates, or 31 unknown cancels + 2 duplicates); arithmetic-overflow panic, so only in builds with overflow checks",
  'C17b':"methods with >= 11 arguments: server passes them in lexicographic order of generated names",
  'C18b':"under an OpenTelemetry layer the server reads the span's context before linking it to the transmitted one",
  'C19b':"before-hook lists of >= 3 hooks: `then` inserts after the head instead of appending",
@@ -85,6 +85,7 @@ strength={
  'C06b':"time-based oracle C06-response-after-deadline; it then exposed D-C06b on the unchanged tree (fixed)",
  'C17b':"grid extended to arities 10, 11, 13 and an all-u8 type row",
  'C20b':"second loom plan: 2 threads x 4 calls + 1 over 2 backends at preemption bound 4 (an imbalance needs two racing wraps)",
+ 'C16b':"flood grid with a request really held in flight (all run-length pairs <= N, one poll); harness built with overflow-checks and debug-assertions; wake-honouring C16 drivers; the author's asides led to D-C16d/e",
  'C05':"new oracle C05-expiry-not-processed (caller woken after a dispatch poll past D+1ms); snap records wake masks",
  'C06':"duplicates with a shorter deadline (dup_deadline_ms) added to the C06 alphabet",
  'C08':"scripted cancels + burst delivery + clean id reuse after cancel/expiry added to the server alphabet",
